@@ -177,7 +177,14 @@ def _tile(text, fullsheet, tokens, ctx, bomshift):
     # comment parsing off == on minus COMMENT tokens (when nothing was completed as a comment)
     if not (completed and body and body[-1][0] == 'COMMENT'):
         t2 = toks(text, fullsheet, doComments=False)
-        if t2 != [t for t in tokens if t[0] != 'COMMENT']:
+        exp2 = []
+        for t in tokens:
+            if t[0] == 'COMMENT':
+                continue
+            if t[0] == 'S' and exp2 and exp2[-1][0] == 'S':
+                continue  # white space on both sides of an omitted comment is reported as one S token
+            exp2.append(t)
+        if t2 != exp2:
             raise Violation('comments-off:differs', f'{t2!r} vs {tokens!r}')
     nonascii = any(ord(c) > 127 for c in text)
     nt = len(body) >= 3 and len(kinds) >= 2 and (has_escape or multiline or completed or nonascii)
